@@ -264,9 +264,20 @@ def deterministic_paths(rep, svh, rng, gates, count, quick):
         elif ref[0][4:] != ref[1][5:]:
             rep.violation('ReferenceSampleTree::from_circuit_reference_sample', 'wrong-result', text,
                           'decompressed compressed reference sample differs from the directly simulated one', ref[0][4:], ref[1][5:])
+    texts = []
     for k in range(count):
         nm = rng.choice([1, 7, 63, 200, 256, 257, 300, 600, 1030])
-        text, n = det_circuit(rng, gates, nm)
+        texts.append(det_circuit(rng, gates, nm)[0])
+    # wide sparse records: a result 1, then a run of 247..257 / 510.. zeros, at every alignment to the byte grid (the r8 writer's
+    # byte-wise path absorbs whole zero bytes and must emit a continuation marker at exactly 255)
+    for k in range(12 if quick else 120):
+        parts = ['X 1', 'M' + ' 0' * rng.randrange(0, 17) if rng.random() < 0.8 else 'M 1']
+        for _ in range(rng.choice([1, 2, 3])):
+            parts.append('M 1')
+            parts.append('M' + ' 0' * rng.choice([247, 248, 253, 254, 255, 255, 255, 256, 257, 263, 510, 511]))
+        parts.append('M 1' if rng.random() < 0.7 else 'M 0')
+        texts.append('\n'.join(parts))
+    for text in texts:
         W0 = rng.choice([64, 128, 256])
         ref = svh.request('refsample', [W0], text)
         rec = ref[0][4:]
